@@ -192,6 +192,17 @@ def run_case(case, ctx):
                     raise Violation("dereference-unstable", f"{what}: second dereference gave {r2!r}: {desc(what)}")
                 ctx.count(f"deref:ok:{kind}")
                 firsts.append((what, p, libside.cplain(r)))
+                # position independence: an uncached copy of the pointer dereferenced while the stream stands at the
+                # pointer's own address, just behind the target, at 0 and at the end
+                for pos in (addr, min(addr + 1, len(image)), 0, len(image)):
+                    fresh = p + 0
+                    stream.seek(pos)
+                    rr = lib(fresh.dereference)
+                    if isinstance(rr, Err) or libside.cplain(rr) != libside.cplain(r):
+                        raise Violation("dereference-depends-on-position", f"{what}: with the stream at {pos} an uncached pointer dereferences to {rr!r}, expected {libside.cplain(r)!r}: {desc(what)}")
+                    if stream.tell() != pos:
+                        raise Violation("dereference-moved-stream", f"{what}: stream at {pos} before, at {stream.tell()} after dereferencing: {desc(what)}")
+                stream.seek(before)
                 if kind == "ptr":
                     inner = lib(r.dereference)
                     try:
